@@ -16,51 +16,51 @@ NOT_APPLICABLE = {
  "C20": "exactness of interpolation and Gaussian elimination (and 'fails only when no solution exists') is a statement about ranks and field values",
 }
 
-claim("C02", "guard inventory (go/cfg dominance) + constant-comparison and call inventories, operand-immutability lint",
+claim("C02", "guard inventory (go/cfg dominance) + constant-comparison and call inventories, operand-immutability lint + loop-bound inventory",
       "Decides that every qualification/shape/constraint guard of the access structures, MSP and sharing schemes is still effective, on the same paths and fed by the same operands; that branch bounds (thresholds, level ordering) are unchanged; that share combinators do not mutate their operands. Holds for all inputs because it is a property of the program text. Does not decide rank computations, privacy, or the value an algorithm computes.",
       NOTE_COMMON, "§5 C02")
-claim("C04", "guard inventory + blame-tag dataflow + validate-before-use + store-guard dominance + transcript-op order",
+claim("C04", "guard inventory + blame-tag dataflow + validate-before-use + store-guard dominance + transcript-op order + loop-bound inventory",
       "Decides for all protocol packages that every verification step guarding a round/aggregate output is present, effective, MUST where it was MUST, fed by the same operands and blaming the same sender-derived sharing.ID; that peer messages are validated before any other read; that state is stored only behind the checks that validated it; that blame errors are fresh objects; that commitment inputs cover all fields; that Fiat-Shamir operations keep their order. Does not decide sufficiency of the check set, termination, or honest-run arithmetic.",
       NOTE_COMMON, "§5 C04")
-claim("C05", "guard + constant-comparison + call inventory, operand-immutability lint",
+claim("C05", "guard + constant-comparison + call inventory, operand-immutability lint + loop-bound inventory",
       "Decides presence/effectiveness/operands of the Feldman/Pedersen verification equality, the dimension guards (incl. mat.LeftAction) and the NewBaseShard consistency guard, and that share/verification-vector combinators never write into their operands. Does not decide the arithmetic of the verification equation.",
       NOTE_COMMON, "§5 C05")
-claim("C06", "guard inventory with phi operand shapes + store-guard dominance",
+claim("C06", "guard inventory with phi operand shapes + store-guard dominance + loop-bound inventory",
       "Decides that a redistributed shard / zero sharing is only released behind the old-pk = new-pk, per-sender verification, partial-pk and identity guards, with the trusted reference chosen under the same conditions as on the reference tree. Does not decide invariance of the secret over operation histories.",
       NOTE_COMMON, "§5 C06")
-claim("C07", "reader-provenance dataflow + sampler inventory",
+claim("C07", "reader-provenance dataflow + sampler inventory + loop-bound inventory",
       "Decides that every io.Reader consumed by library code originates from the caller's reader (parameter / field stored from a parameter / enumerated deterministic derivation), that no ambient entropy source or reader-ignoring stdlib function is used (three known findings listed), that sampler errors are not ignored, reads are full-length into non-empty buffers, and that no function stops sampling, samples into a different buffer or hoists a sampler out of its loop compared with the frozen sampler inventory; plus guard/branch/sponge-op inventories over the protocol packages so that the loops folding every party's contribution into joint values keep their bounds and order. Does not decide statistical quality.",
       NOTE_COMMON, "§5 C07")
-claim("C08", "guard inventory + field-coverage of Bytes() + transcript-op order",
+claim("C08", "guard inventory + field-coverage of Bytes() + transcript-op order + loop-bound inventory",
       "Decides presence/effectiveness/operands of all verification guards in the sigma protocols and compilers, that every statement/commitment/response Bytes() absorbs every field, and that prover and verifier perform the frozen labelled transcript operations in order. Does not decide completeness, extraction, simulation or OR-composition semantics.",
       NOTE_COMMON, "§5 C08")
-claim("C09", "guard inventory + transcript-op order + store guards",
+claim("C09", "guard inventory + transcript-op order + store guards + loop-bound inventory",
       "Abort clause only: the OT-extension challenge check, base-OT response checks, and the RVOLE mu check and theta derivation (absorb-all-columns-then-extract) are present, effective and ordered. Does not decide the correlation itself.",
       NOTE_COMMON, "§5 C09")
-claim("C10", "guard inventory + store-guard dominance + sponge-op order + blame rules",
+claim("C10", "guard inventory + store-guard dominance + sponge-op order + blame rules + loop-bound inventory",
       "Decides commit-then-open in session setup (contributions stored only behind their Open, with the right key and commitment), that SubContext reads copies of the parent seeds and binds the sub-quorum ids, and that setup failures blame a fresh, sender-derived culprit. Does not decide symmetry/distinctness of seeds or the zero-sum identity.",
       NOTE_COMMON, "§5 C10")
 claim("C11", "lockset dataflow + wake-up pairing + routing-key provenance",
       "Decides structural necessary conditions of race freedom, no lost wake-up, exact routing and broadcast consistency: guarded-by, lock pairing, no blocking under lock, every store the waiter observes is followed by a wake-up, waiter re-scan loop, buffered notify, transport-authenticated routing key behind the membership filter, buffer accounting, all echoes compared. Does not decide deadlock freedom or linearizability over all schedules.",
       NOTE_COMMON, "§5 C11")
-claim("C12", "constant evaluation of decoder options + nil-flow in decoders + guard inventory",
+claim("C12", "constant evaluation of decoder options + nil-flow in decoders + guard inventory + loop-bound inventory",
       "Decides that the strict CBOR mode is what it says, that nothing bypasses it, that decoders cannot nil-dereference what they decoded (67 known findings for CBOR null; absent-field panics repaired by fix: commits), that every decoder keeps its validating constructor/check, and that writers and readers agree on DTO types and tags. Does not decide value-level round-trip equality.",
       NOTE_COMMON, "§5 C12")
-claim("C13", "guard + constant-comparison + call inventory, length-before-content dominance rule, subgroup sibling rule",
+claim("C13", "guard + constant-comparison + call inventory, length-before-content dominance rule, subgroup sibling rule + loop-bound inventory",
       "Decides that every point/scalar decoder and affine constructor keeps its on-curve setter check, length, flag and subgroup guards with the same bounds (G1.FromAffineX repaired by a fix: commit), that no exported decoder reads a constant position of a []byte input before a test of its length (G2), and that every constructor of a prime-order type goes through a torsion check (G4). Does not decide injectivity/round trip.",
       NOTE_COMMON, "§5 C13")
-claim("C15", "guard + constant-comparison + call inventory, selector-disjointness lint",
+claim("C15", "guard + constant-comparison + call inventory, selector-disjointness lint + loop-bound inventory",
       "Rejection clauses only: BLS identity/subgroup/pairing guards, ECDSA recovery-id/low-S/native verification guards, Schnorr/Mina equality and canonical-encoding guards are present and effective; domain-separation tags handed out by different selectors are disjoint. Does not decide acceptance of honest signatures or agreement with vectors.",
       NOTE_COMMON, "§5 C15")
-claim("C16", "guard + constant-comparison + call inventory",
+claim("C16", "guard + constant-comparison + call inventory + loop-bound inventory",
       "Only the structural mechanisms: ciphertext/plaintext/nonce group-membership guards and key-size floors of Paillier/ElGamal and of the znstar groups are present, effective and have the same bounds. Does not decide exactness of homomorphisms or CRT path = public path.",
       NOTE_COMMON, "§5 C16")
-claim("C17", "ok-flag lint + guard / constant-comparison inventory",
+claim("C17", "ok-flag lint + guard / constant-comparison inventory + loop-bound inventory",
       "Discipline only: no success flag of a fallible big-number/field primitive is dropped, and the error-returning APIs keep their failure guards and bounds. Does not decide any numerical result.",
       NOTE_COMMON, "§5 C17")
-claim("C18", "guard + constant-comparison inventory + hash-op order + in-module call inventory",
+claim("C18", "guard + constant-comparison inventory + hash-op order + in-module call inventory + loop-bound inventory",
       "Decides that every Open reaches an effective equality between recomputed and presented commitment, that key constructors and the encryption/znstar validation they rely on keep their guards and bounds, and that hash absorption order is kept. Does not decide hiding/binding or homomorphism laws.",
       NOTE_COMMON, "§5 C18")
-claim("C19", "sponge-operation order + guard / constant-comparison / call inventory",
+claim("C19", "sponge-operation order + guard / constant-comparison / call inventory + loop-bound inventory",
       "Decides that Hagrid absorbs tag, 64-bit lengths, message count and data in the frozen order, that extraction forks after the requested length was absorbed and ratchets the live state, that the Append helper frames each value, and that RFC 9380 expander bounds are unchanged. Does not decide agreement with RFC vectors or subgroup membership of hash-to-curve outputs.",
       NOTE_COMMON, "§5 C19")
